@@ -360,6 +360,36 @@ class Exec:
             else: d[o] = (self.kser(k), self.vser(v))
             del k, v
             self.need_after = True; return "ok"
+        if op == "deepcheck":
+            # oracle-only: a SEPARATE tall tree (ascending inserts leave every node half full), checked against
+            # what a dict would answer; the model is not asked (the driver answers `ok`)
+            cap, n = int(a[0]), int(a[1])
+            big = self.make(cap)
+            for i in range(n): big[2 * i] = i
+            bad = []
+            if len(big) != n: bad.append("len %d expected %d" % (len(big), n))
+            probes = [0, 2, 2 * (n // 2), 2 * (n - 1), 2 * (n // 3), 2 * (n - 2)]
+            for k in probes:
+                if k not in big: bad.append("present key %d reported absent" % k)
+                try:
+                    if big[k] != k // 2: bad.append("[%d] -> %r" % (k, big[k]))
+                except Exception as e: bad.append("[%d] raised %s" % (k, type(e).__name__))
+            for k in (1, 2 * n + 1, -5):
+                if k in big: bad.append("absent key %d reported present" % k)
+                try: big[k]; bad.append("[%d] on an absent key returned" % k)
+                except KeyError: pass
+                except Exception as e: bad.append("[%d] on an absent key raised %s" % (k, type(e).__name__))
+            try:
+                del big[2 * (n // 2)]
+                if 2 * (n // 2) in big: bad.append("deleted key still present")
+            except Exception as e: bad.append("del raised %s" % type(e).__name__)
+            it = iter(big); first = [next(it) for _ in range(5)]
+            if first != [0, 2, 4, 6, 8]: bad.append("iteration starts %r" % first)
+            it = None; big = None
+            gc.collect()
+            if bad:
+                self.fail("C12", "deepcheck capacity %d, %d ascending keys: %s" % (cap, n, "; ".join(bad[:5])))
+            return "ok"
         if op == "repeatset":
             k = self.key(a[0]); v = self.val(a[1]); o = ord_of(self.flav, k); n = int(a[2])
             for _ in range(n): t[k] = v
@@ -722,6 +752,10 @@ def main():
             for l in gen_caps(): ex.run_line(l)
         ex.close(); return
     if suite == "c-exh":
+        caseno += 1
+        ex.run_line("case %d" % caseno); ex.run_line("cfg mode type"); ex.run_line("cfg flavour int"); ex.run_line("C new 4")
+        ex.run_line("C deepcheck 4 %d" % (260000 if n <= 3 else 800000))
+        ex.run_line("C deepcheck 5 %d" % (320000 if n <= 3 else 800000))
         done = 0
         for cap in (4, 5):
             base = list(range(0, 2 * cap + 2))
